@@ -523,6 +523,9 @@ func extractImports(filename string, content []byte) (importsInput bytes.Buffer)
 	}
 
 	scanner := bufio.NewScanner(bytes.NewReader(content))
+	// No line can be longer than the file: without this, a line above bufio's default limit of 64 KiB (a minified
+	// comment, a generated banner) silently ended the scan and every import statement after it was dropped.
+	scanner.Buffer(nil, len(content)+1)
 	scanner.Split(bufio.ScanLines)
 	for scanner.Scan() {
 		if bytes.HasPrefix(scanner.Bytes(), importStmtPrefix) {
